@@ -206,6 +206,15 @@ def timer_rules(ctx):
                 continue
             woke = any(e.kind == "call" and sinks.is_wake(g, e.value) for _, e in r.effects())
             inst = "%s wakes the job thread" % name
+            wi = [i for i, e in r.effects() if e.kind == "call" and sinks.is_wake(g, e.value)]
+            pub = [i for i, e in r.effects() if e.kind == "call" and mname(e.value) in ("append", "insert", "extend") and root_field(e.value[1][1]) == "_timer_events"]
+            pub += [i for i, e in r.effects() if e.kind in ("store", "aug") and root_field(e.target) == "_timer_events"]
+            if woke and name == "add_timer" and pub and max(wi) < max(pub):
+                # wake-then-publish: the job thread can run its pass in between, not see the new event, and go back to sleep
+                ctx.violated("R-WAKE", g, inst + " after publishing the event", "the wake-up token is posted before the event is added to the timer list: "
+                             "a job pass running in between does not see the new timer and sleeps its old time (up to 5 s) - the timer fires late",
+                             [e for i, e in r.effects() if i == max(wi)][0].node)
+                break
             if woke:
                 ctx.holds("R-WAKE", inst)
             else:
